@@ -12,6 +12,7 @@ import Lattigo.Model.KeySwitch
   gp|gpl|gph|gphl|apply|relin|aut|auth|autl|autlmd|applyup|applydown  N Q P lq lp w isNTT galEl nbPi shape evk ct   → polys
         (for applyup/applydown the galEl slot carries gap = N/n)
   keymeta type form w lq lp deg nI nJ galEl nthRoot seed    → the record of the derived key (= the original's)
+  gplazyw p= mrc= fam= r0= r1= c=                            → raw words of one limb of the lazy accumulators
   A list of polynomials is `rows;rows;…` joined by `/`.
 -/
 namespace Driver.C04
@@ -168,11 +169,22 @@ def handleKeyMeta (toks : List String) : Option String := do
     some (s!"{d.w} {d.lq} {d.lp} {d.deg} {d.nI} {showVec d.nJ} {d.galEl} {d.nthRoot} {showHex d.seed}")
   | _ => none
 
+/-- `gplazyw p=… mrc=… fam=… r0=… r1=… c=…`: raw accumulators of one limb of `GadgetProduct{,Hoisted}Lazy` -/
+def handleGpLazyW (toks : List String) : Option String := do
+  let p ← (kv? toks "p") >>= parseNat?
+  let mrc ← (kv? toks "mrc") >>= parseNat?
+  let fam ← (kv? toks "fam") >>= parseVec?
+  let r0 ← (kv? toks "r0") >>= parseMat?
+  let r1 ← (kv? toks "r1") >>= parseMat?
+  let c ← (kv? toks "c") >>= parseMat?
+  some (showVec (gpLazyLimb p mrc fam r0 c) ++ "|" ++ showVec (gpLazyLimb p mrc fam r1 c))
+
 def handle (toks : List String) : String :=
   let r := match toks with
     | "dims" :: rest => handleDims rest
     | "evk" :: rest => handleEvk rest
     | "keymeta" :: rest => handleKeyMeta rest
+    | "gplazyw" :: rest => handleGpLazyW rest
     | op :: rest => handleKs op rest
     | _ => none
   r.getD badOp
